@@ -317,6 +317,867 @@ pub fn run_value_sweep(rep: &Reporter, counter: &AtomicU64) -> u64 {
     n
 }
 
+// ---------------------------------------------------------------------------------------------
+// sub-store family: one level of sub-stores (STAM JSON "@include" of an AnnotationStore), bounded-exhaustive over layouts
+
+const ROOT_FILE: &str = "root.store.stam.json";
+const SUB_FILE: &str = "sub.store.stam.json";
+const RS_FILE: &str = "rs.txt";
+const SS_FILE: &str = "ss.annotationset.stam.json";
+
+/// how the sub-store gets attached to the root store
+#[derive(Clone, Copy, Debug, PartialEq, Eq)]
+pub enum Attach {
+    /// hand-written root document with "@include": "sub.store.stam.json", loaded with from_file
+    Include,
+    /// root store built through the API, hand-written sub-store file attached with add_substore(file)
+    Add,
+    /// everything built through the API: add_new_substore(id, file) and associate_substore per item
+    New,
+}
+
+/// where the sub-store's resource / dataset lives
+#[derive(Clone, Copy, Debug, PartialEq, Eq)]
+pub enum Place {
+    /// inline in the sub-store file
+    Inline,
+    /// stand-off file @included by the sub-store
+    Standoff,
+    /// the same stand-off file is @included by the sub-store and by the root
+    Shared,
+}
+
+#[derive(Clone, Debug, PartialEq, Eq)]
+pub struct SubLayout {
+    pub attach: Attach,
+    /// the root's own resource and dataset come before the sub-store: (Include) they stand before "@include" in the root
+    /// document; (Add / New) they and the root's first annotation are made before the sub-store is attached
+    pub root_first: bool,
+    pub res: Place,
+    pub set: Place,
+    /// root annotation R2 with a text selector on the sub-store's resource and data of the sub-store's dataset
+    pub r2: bool,
+    /// root annotation R3 that targets the sub-store annotation S1: 0 absent, 1 AnnotationSelector without offset, 2 with offset
+    pub r3: u8,
+    pub multibyte: bool,
+    pub endaligned: bool,
+    /// S2, R1, R2 and the data made by S2 and R3 carry no public identifier
+    pub idless: bool,
+    /// removal before the first save: 0 none, 1 the root annotation R1, 2 the sub-store annotation S2
+    pub removal: u8,
+}
+
+impl SubLayout {
+    fn attach_name(&self) -> &'static str {
+        match (self.attach, self.root_first) {
+            (Attach::Include, false) => "include",
+            (Attach::Include, true) => "include-rootfirst",
+            (Attach::Add, false) => "add",
+            (Attach::Add, true) => "add-rootfirst",
+            (Attach::New, false) => "new",
+            (Attach::New, true) => "new-rootfirst",
+        }
+    }
+    fn place_name(p: Place) -> &'static str {
+        match p {
+            Place::Inline => "inline",
+            Place::Standoff => "standoff",
+            Place::Shared => "shared",
+        }
+    }
+    fn sig_prefix(&self) -> String {
+        format!("substore|{}|res-{}|set-{}", self.attach_name(), Self::place_name(self.res), Self::place_name(self.set))
+    }
+    pub fn to_json(&self) -> Value {
+        json!({
+            "attach": match self.attach { Attach::Include => "include", Attach::Add => "add", Attach::New => "new" },
+            "root_first": self.root_first,
+            "res": Self::place_name(self.res),
+            "set": Self::place_name(self.set),
+            "r2": self.r2,
+            "r3": (["none", "annotationselector", "annotationselector+offset"][self.r3 as usize % 3]),
+            "multibyte": self.multibyte,
+            "endaligned": self.endaligned,
+            "idless": self.idless,
+            "removal": (["none", "root-annotation", "substore-annotation"][self.removal as usize % 3]),
+        })
+    }
+    pub fn from_json(v: &Value) -> Option<SubLayout> {
+        let place = |s: &str| match s {
+            "inline" => Some(Place::Inline),
+            "standoff" => Some(Place::Standoff),
+            "shared" => Some(Place::Shared),
+            _ => None,
+        };
+        Some(SubLayout {
+            attach: match v.get("attach")?.as_str()? {
+                "include" => Attach::Include,
+                "add" => Attach::Add,
+                "new" => Attach::New,
+                _ => return None,
+            },
+            root_first: v.get("root_first")?.as_bool()?,
+            res: place(v.get("res")?.as_str()?)?,
+            set: place(v.get("set")?.as_str()?)?,
+            r2: v.get("r2")?.as_bool()?,
+            r3: ["none", "annotationselector", "annotationselector+offset"].iter().position(|x| Some(*x) == v.get("r3").and_then(|x| x.as_str()))? as u8,
+            multibyte: v.get("multibyte")?.as_bool()?,
+            endaligned: v.get("endaligned")?.as_bool()?,
+            idless: v.get("idless")?.as_bool()?,
+            removal: ["none", "root-annotation", "substore-annotation"].iter().position(|x| Some(*x) == v.get("removal").and_then(|x| x.as_str()))? as u8,
+        })
+    }
+    /// number of dimensions away from the plainest layout (orders the witnesses simplest-first)
+    fn weight(&self) -> u64 {
+        (self.attach != Attach::Include) as u64
+            + self.root_first as u64
+            + (self.res != Place::Inline) as u64
+            + (self.res == Place::Shared) as u64
+            + (self.set != Place::Inline) as u64
+            + (self.set == Place::Shared) as u64
+            + self.r2 as u64
+            + self.r3 as u64
+            + self.multibyte as u64
+            + self.endaligned as u64
+            + self.idless as u64
+            + (self.removal != 0) as u64
+    }
+    /// the root's first annotation is made before the sub-store's annotations
+    /// (never: a root document names its sub-stores before its own annotations, so the order between the annotations of
+    /// different documents is not something the format records; only resources and datasets of the root come first)
+    fn ann_root_first(&self) -> bool {
+        false
+    }
+    fn rr_text(&self) -> &'static str {
+        if self.multibyte { "r\u{f6}\u{f6}t t\u{eb}xt" } else { "root text" } // 9 characters
+    }
+    fn rs_text(&self) -> &'static str {
+        if self.multibyte { "s\u{fc}b t\u{eb}x\u{20ac}" } else { "sub text" } // 8 characters
+    }
+}
+
+/// the product of the dimensions, in a fixed order
+pub fn substore_layouts() -> Vec<SubLayout> {
+    let mut v = Vec::new();
+    for (attach, root_first) in [(Attach::Include, false), (Attach::Include, true), (Attach::Add, false), (Attach::Add, true), (Attach::New, false), (Attach::New, true)] {
+        for res in [Place::Inline, Place::Standoff, Place::Shared] {
+            for set in [Place::Inline, Place::Standoff, Place::Shared] {
+                // a store made from scratch through the API has no second document that could include the same file
+                if attach == Attach::New && (res == Place::Shared || set == Place::Shared) {
+                    continue;
+                }
+                for r2 in [false, true] {
+                    for r3 in 0..3u8 {
+                        for multibyte in [false, true] {
+                            for endaligned in [false, true] {
+                                // three text / offset flavours: plain, multi-byte, multi-byte with end-aligned offsets
+                                if endaligned && !multibyte {
+                                    continue;
+                                }
+                                for idless in [false, true] {
+                                    // a stand-off dataset holding id-less data that two documents include is merged twice by the loader
+                                    // (items without an id cannot be recognised as the same item): that is a matter of merging
+                                    // hand-written documents, not of writing a store and reading it back
+                                    if set == Place::Shared && idless {
+                                        continue;
+                                    }
+                                    for removal in 0..3u8 {
+                                        v.push(SubLayout { attach, root_first, res, set, r2, r3, multibyte, endaligned, idless, removal });
+                                    }
+                                }
+                            }
+                        }
+                    }
+                }
+            }
+        }
+    }
+    v
+}
+
+#[derive(Clone)]
+enum SubTarget {
+    Text { res: &'static str, b: Cursor, e: Cursor },
+    Ann { ann: &'static str, off: Option<(Cursor, Cursor)> },
+}
+
+#[derive(Clone)]
+struct SubData {
+    set: &'static str,
+    key: &'static str,
+    id: Option<&'static str>,
+    value: DataValue,
+    /// the data item is in the set before the annotation is made (else the annotation makes it)
+    predefined: bool,
+}
+
+#[derive(Clone)]
+struct SubAnn {
+    id: Option<&'static str>,
+    /// belongs to the sub-store
+    sub: bool,
+    target: SubTarget,
+    data: SubData,
+}
+
+/// the annotations of a layout in creation order
+fn sub_annotations(l: &SubLayout) -> Vec<SubAnn> {
+    use Cursor::{BeginAligned as B, EndAligned as E};
+    let idl = |id: &'static str| if l.idless { None } else { Some(id) };
+    let s1 = SubAnn {
+        id: Some("S1"),
+        sub: true,
+        target: SubTarget::Text { res: "rs", b: B(0), e: B(3) },
+        data: SubData { set: "ss", key: "ks", id: Some("DS1"), value: DataValue::String("v1".into()), predefined: true },
+    };
+    let s2 = SubAnn {
+        id: idl("S2"),
+        sub: true,
+        target: if l.endaligned { SubTarget::Text { res: "rs", b: E(-4), e: E(0) } } else { SubTarget::Text { res: "rs", b: B(4), e: B(8) } },
+        data: SubData { set: "ss", key: "ks", id: idl("DS2"), value: DataValue::Int(2), predefined: false },
+    };
+    let r1 = SubAnn {
+        id: idl("R1"),
+        sub: false,
+        target: if l.endaligned { SubTarget::Text { res: "rr", b: E(-9), e: E(-5) } } else { SubTarget::Text { res: "rr", b: B(0), e: B(4) } },
+        data: SubData { set: "sr", key: "kr", id: Some("DR"), value: DataValue::String("vr".into()), predefined: true },
+    };
+    let r2 = SubAnn {
+        id: idl("R2"),
+        sub: false,
+        target: if l.endaligned { SubTarget::Text { res: "rs", b: E(-7), e: E(-5) } } else { SubTarget::Text { res: "rs", b: B(1), e: B(3) } },
+        data: SubData { set: "ss", key: "ks", id: Some("DS1"), value: DataValue::String("v1".into()), predefined: true },
+    };
+    let r3 = SubAnn {
+        id: Some("R3"),
+        sub: false,
+        target: SubTarget::Ann {
+            ann: "S1",
+            off: match (l.r3, l.endaligned) {
+                (2, false) => Some((B(1), B(2))),
+                (2, true) => Some((E(-2), E(-1))),
+                _ => None,
+            },
+        },
+        data: SubData { set: "sr", key: "kr", id: idl("DR3"), value: DataValue::Int(3), predefined: false },
+    };
+    let mut v = if l.ann_root_first() { vec![r1, s1, s2] } else { vec![s1, s2, r1] };
+    if l.r2 {
+        v.push(r2);
+    }
+    if l.r3 > 0 {
+        v.push(r3);
+    }
+    v
+}
+
+/// creation-order index of the annotation a layout removes before saving
+fn sub_removal_index(l: &SubLayout) -> Option<usize> {
+    match (l.removal, l.ann_root_first()) {
+        (1, false) => Some(2), // R1 after S1 S2
+        (1, true) => Some(0),
+        (2, false) => Some(1), // S2
+        (2, true) => Some(2),
+        _ => None,
+    }
+}
+
+// hand-written JSON with the members in the order given (the loader streams the document)
+fn jstr(s: &str) -> String {
+    serde_json::to_string(s).unwrap_or_default()
+}
+fn jobj(members: &[(&str, String)]) -> String {
+    format!("{{{}}}", members.iter().map(|(k, v)| format!("{}: {}", jstr(k), v)).collect::<Vec<_>>().join(", "))
+}
+fn jarr(items: &[String]) -> String {
+    format!("[{}]", items.join(",\n  "))
+}
+fn jcursor(c: &Cursor) -> String {
+    match c {
+        Cursor::BeginAligned(n) => jobj(&[("@type", jstr("BeginAlignedCursor")), ("value", n.to_string())]),
+        Cursor::EndAligned(n) => jobj(&[("@type", jstr("EndAlignedCursor")), ("value", n.to_string())]),
+    }
+}
+fn joffset(b: &Cursor, e: &Cursor) -> String {
+    jobj(&[("@type", jstr("Offset")), ("begin", jcursor(b)), ("end", jcursor(e))])
+}
+fn jvalue(v: &DataValue) -> String {
+    match v {
+        DataValue::String(s) => jobj(&[("@type", jstr("String")), ("value", jstr(s))]),
+        DataValue::Int(i) => jobj(&[("@type", jstr("Int")), ("value", i.to_string())]),
+        _ => jobj(&[("@type", jstr("Null"))]),
+    }
+}
+fn jannotation(a: &SubAnn) -> String {
+    let mut m: Vec<(&str, String)> = vec![("@type", jstr("Annotation"))];
+    if let Some(id) = a.id {
+        m.push(("@id", jstr(id)));
+    }
+    m.push((
+        "target",
+        match &a.target {
+            SubTarget::Text { res, b, e } => jobj(&[("@type", jstr("TextSelector")), ("resource", jstr(res)), ("offset", joffset(b, e))]),
+            SubTarget::Ann { ann, off: None } => jobj(&[("@type", jstr("AnnotationSelector")), ("annotation", jstr(ann))]),
+            SubTarget::Ann { ann, off: Some((b, e)) } => jobj(&[("@type", jstr("AnnotationSelector")), ("annotation", jstr(ann)), ("offset", joffset(b, e))]),
+        },
+    ));
+    // the data items are listed in their set (as the library writes them); an item without identifier is referenced by key and value
+    let d = &a.data;
+    m.push((
+        "data",
+        jarr(&[match d.id {
+            Some(id) => jobj(&[("@type", jstr("AnnotationData")), ("@id", jstr(id)), ("set", jstr(d.set))]),
+            None => jobj(&[("@type", jstr("AnnotationData")), ("set", jstr(d.set)), ("key", jstr(d.key)), ("value", jvalue(&d.value))]),
+        }]),
+    ));
+    jobj(&m)
+}
+/// the full dataset document: its key and every data item of the given annotations that live in it (each once)
+fn jdataset(set: &str, key: &str, anns: &[SubAnn]) -> String {
+    let mut seen: Vec<(Option<&str>, String)> = Vec::new();
+    let mut items: Vec<String> = Vec::new();
+    for a in anns.iter().filter(|a| a.data.set == set) {
+        let ident = (a.data.id, format!("{:?}", a.data.value));
+        if seen.contains(&ident) {
+            continue;
+        }
+        seen.push(ident);
+        let mut m: Vec<(&str, String)> = vec![("@type", jstr("AnnotationData"))];
+        if let Some(id) = a.data.id {
+            m.push(("@id", jstr(id)));
+        }
+        m.push(("key", jstr(a.data.key)));
+        m.push(("value", jvalue(&a.data.value)));
+        items.push(jobj(&m));
+    }
+    jobj(&[
+        ("@type", jstr("AnnotationDataSet")),
+        ("@id", jstr(set)),
+        ("keys", jarr(&[jobj(&[("@type", jstr("DataKey")), ("@id", jstr(key))])])),
+        ("data", jarr(&items)),
+    ])
+}
+
+/// writes the sub-store document (and its stand-off files) by hand
+fn write_sub_files(l: &SubLayout, dir: &str, anns: &[SubAnn]) -> std::io::Result<()> {
+    let res = match l.res {
+        Place::Inline => jobj(&[("@type", jstr("TextResource")), ("@id", jstr("rs")), ("text", jstr(l.rs_text()))]),
+        _ => {
+            std::fs::write(format!("{}/{}", dir, RS_FILE), l.rs_text())?;
+            jobj(&[("@type", jstr("TextResource")), ("@id", jstr("rs")), ("@include", jstr(RS_FILE))])
+        }
+    };
+    // the sub-store's set holds S1's and S2's data (R2 only refers to S1's)
+    let subanns: Vec<SubAnn> = anns.iter().filter(|a| a.sub).cloned().collect();
+    let set = match l.set {
+        Place::Inline => jdataset("ss", "ks", &subanns),
+        _ => {
+            std::fs::write(format!("{}/{}", dir, SS_FILE), jdataset("ss", "ks", &subanns))?;
+            jobj(&[("@type", jstr("AnnotationDataSet")), ("@id", jstr("ss")), ("@include", jstr(SS_FILE))])
+        }
+    };
+    let doc = jobj(&[
+        ("@type", jstr("AnnotationStore")),
+        ("@id", jstr("sub")),
+        ("resources", jarr(&[res])),
+        ("annotationsets", jarr(&[set])),
+        ("annotations", jarr(&subanns.iter().map(jannotation).collect::<Vec<_>>())),
+    ]);
+    std::fs::write(format!("{}/{}", dir, SUB_FILE), doc)
+}
+
+/// writes the root document by hand: "@include" of the sub-store before (or, root first, after) the root's own resources
+/// and datasets; the annotations last
+fn write_root_file(l: &SubLayout, dir: &str, anns: &[SubAnn]) -> std::io::Result<()> {
+    let mut resources = vec![jobj(&[("@type", jstr("TextResource")), ("@id", jstr("rr")), ("text", jstr(l.rr_text()))])];
+    if l.res == Place::Shared {
+        resources.push(jobj(&[("@type", jstr("TextResource")), ("@id", jstr("rs")), ("@include", jstr(RS_FILE))]));
+    }
+    let rootanns: Vec<SubAnn> = anns.iter().filter(|a| !a.sub).cloned().collect();
+    let mut sets = vec![jdataset("sr", "kr", &rootanns)];
+    if l.set == Place::Shared {
+        sets.push(jobj(&[("@type", jstr("AnnotationDataSet")), ("@id", jstr("ss")), ("@include", jstr(SS_FILE))]));
+    }
+    let include = ("@include", jstr(SUB_FILE));
+    let (resources, sets) = (("resources", jarr(&resources)), ("annotationsets", jarr(&sets)));
+    let annotations = ("annotations", jarr(&rootanns.iter().map(jannotation).collect::<Vec<_>>()));
+    let head = [("@type", jstr("AnnotationStore")), ("@id", jstr("root"))];
+    let doc = if l.root_first {
+        jobj(&[head[0].clone(), head[1].clone(), resources, sets, include, annotations])
+    } else {
+        jobj(&[head[0].clone(), head[1].clone(), include, resources, sets, annotations])
+    };
+    std::fs::write(format!("{}/{}", dir, ROOT_FILE), doc)
+}
+
+fn sub_builder(a: &SubAnn) -> AnnotationBuilder<'static> {
+    let mut b = AnnotationBuilder::new();
+    if let Some(id) = a.id {
+        b = b.with_id(id);
+    }
+    b = b.with_target(match &a.target {
+        SubTarget::Text { res, b, e } => SelectorBuilder::textselector(*res, Offset::new(*b, *e)),
+        SubTarget::Ann { ann, off } => SelectorBuilder::annotationselector(*ann, off.map(|(b, e)| Offset::new(b, e))),
+    });
+    let d = &a.data;
+    match (d.predefined, d.id) {
+        (true, Some(id)) => b.with_existing_data(d.set, id),
+        (_, Some(id)) => b.with_data_with_id(d.set, d.key, d.value.clone(), id),
+        (_, None) => b.with_data(d.set, d.key, d.value.clone()),
+    }
+}
+
+/// The reference: the same items made in the same order in one plain store without files and sub-stores.
+fn sub_flat_store(l: &SubLayout, anns: &[SubAnn]) -> Result<AnnotationStore, StamError> {
+    let mut store = AnnotationStore::new(Config::default()).with_id("root");
+    let rr = |store: &mut AnnotationStore| -> Result<(), StamError> {
+        store.add_resource(TextResourceBuilder::new().with_id("rr").with_text(l.rr_text()))?;
+        store.add_dataset(AnnotationDataSetBuilder::new().with_id("sr").with_key_value_id("kr", "vr", "DR"))?;
+        Ok(())
+    };
+    let rs = |store: &mut AnnotationStore| -> Result<(), StamError> {
+        store.add_resource(TextResourceBuilder::new().with_id("rs").with_text(l.rs_text()))?;
+        store.add_dataset(AnnotationDataSetBuilder::new().with_id("ss").with_key_value_id("ks", "v1", "DS1"))?;
+        Ok(())
+    };
+    if l.root_first {
+        rr(&mut store)?;
+        rs(&mut store)?;
+    } else {
+        rs(&mut store)?;
+        rr(&mut store)?;
+    }
+    for a in anns {
+        store.annotate(sub_builder(a))?;
+    }
+    Ok(store)
+}
+
+/// Makes the store of a layout: writes the hand-written files into `dir` and loads / builds the store.
+fn sub_make_store(l: &SubLayout, dir: &str, anns: &[SubAnn]) -> Result<AnnotationStore, StamError> {
+    let io = |e: std::io::Error| StamError::IOError(e, dir.to_string(), "harness: writing the layout files");
+    let rootpath = format!("{}/{}", dir, ROOT_FILE);
+    let config = || Config::default().with_use_include(true);
+    match l.attach {
+        Attach::Include => {
+            write_sub_files(l, dir, anns).map_err(io)?;
+            write_root_file(l, dir, anns).map_err(io)?;
+            AnnotationStore::from_file(&rootpath, config())
+        }
+        Attach::Add | Attach::New => {
+            if l.attach == Attach::Add {
+                write_sub_files(l, dir, anns).map_err(io)?;
+            }
+            let mut store = AnnotationStore::new(config()).with_id("root").with_filename(&rootpath);
+            let root_items = |store: &mut AnnotationStore| -> Result<(), StamError> {
+                store.add_resource(TextResourceBuilder::new().with_id("rr").with_text(l.rr_text()))?;
+                store.add_dataset(AnnotationDataSetBuilder::new().with_id("sr").with_key_value_id("kr", "vr", "DR"))?;
+                Ok(())
+            };
+            let attach = |store: &mut AnnotationStore| -> Result<(), StamError> {
+                if l.attach == Attach::Add {
+                    // the root includes the same stand-off files itself, before the sub-store comes in
+                    if l.res == Place::Shared {
+                        store.add_resource(TextResourceBuilder::new().with_id("rs").with_filename(RS_FILE))?;
+                    }
+                    if l.set == Place::Shared {
+                        store.add_dataset(AnnotationDataSetBuilder::new().with_filename(SS_FILE))?;
+                    }
+                    store.add_substore(SUB_FILE)?;
+                } else {
+                    let sub = store.add_new_substore("sub", SUB_FILE)?;
+                    let rs = match l.res {
+                        Place::Inline => store.add_resource(TextResourceBuilder::new().with_id("rs").with_text(l.rs_text()))?,
+                        _ => store.add_resource(TextResourceBuilder::new().with_id("rs").with_filename(RS_FILE).with_text(l.rs_text()))?,
+                    };
+                    <AnnotationStore as AssociateSubStore<TextResource>>::associate_substore(store, rs, sub)?;
+                    let ss = match l.set {
+                        Place::Inline => store.add_dataset(AnnotationDataSetBuilder::new().with_id("ss").with_key_value_id("ks", "v1", "DS1"))?,
+                        // (the dataset builder drops the file name when an id is given)
+                        _ => store.insert(AnnotationDataSet::new(Config::default()).with_id("ss").with_filename(SS_FILE).with_data_with_id("ks", "v1", "DS1")?)?,
+                    };
+                    <AnnotationStore as AssociateSubStore<AnnotationDataSet>>::associate_substore(store, ss, sub)?;
+                    for a in anns.iter().filter(|a| a.sub) {
+                        let h = store.annotate(sub_builder(a))?;
+                        <AnnotationStore as AssociateSubStore<Annotation>>::associate_substore(store, h, sub)?;
+                    }
+                }
+                Ok(())
+            };
+            let rootanns: Vec<&SubAnn> = anns.iter().filter(|a| !a.sub).collect();
+            if l.root_first {
+                root_items(&mut store)?;
+                attach(&mut store)?;
+                for a in &rootanns {
+                    store.annotate(sub_builder(a))?;
+                }
+            } else {
+                attach(&mut store)?;
+                root_items(&mut store)?;
+                for a in &rootanns {
+                    store.annotate(sub_builder(a))?;
+                }
+            }
+            Ok(store)
+        }
+    }
+}
+
+/// Order-insensitive form of the abstract rendering where the statement does not speak of an order: resources and
+/// datasets as sets (keys and data keep their order within their set); annotations keep their order.
+fn sub_norm(mut o: Vec<(String, String)>) -> Vec<(String, String)> {
+    let rank = |s: &str| ["resource", "dataset", "key", "data", "annotation"].iter().position(|x| *x == s).unwrap_or(9);
+    o.sort_by(|a, b| {
+        rank(&a.0).cmp(&rank(&b.0)).then_with(|| match a.0.as_str() {
+            "resource" | "dataset" => a.1.cmp(&b.1),
+            "key" | "data" => a.1.split('/').next().cmp(&b.1.split('/').next()),
+            _ => std::cmp::Ordering::Equal,
+        })
+    });
+    o
+}
+
+/// Which items belong to which sub-store, and which to none. Annotations are named by id, else by rank among all live ones.
+fn sub_membership(store: &AnnotationStore) -> Vec<String> {
+    let live: Vec<usize> = store.annotations().map(|a| a.handle().as_usize()).collect();
+    let aname = |a: &ResultItem<Annotation>| match a.id() {
+        Some(id) => id.to_string(),
+        None => format!("~A{}", live.iter().position(|h| *h == a.handle().as_usize()).unwrap_or(usize::MAX)),
+    };
+    let sorted = |mut v: Vec<String>| {
+        v.sort();
+        v.join(",")
+    };
+    let subname = |s: &ResultItem<AnnotationSubStore>| s.id().unwrap_or("<no id>").to_string();
+    let mut o = Vec::new();
+    o.push(format!("substores total={} top-level={}", store.substores_flatten().count(), store.substores().count()));
+    for s in store.substores_flatten() {
+        let file = s.as_ref().filename().map(|p| p.file_name().map(|f| f.to_string_lossy().to_string()).unwrap_or_default()).unwrap_or_else(|| "<no file>".into());
+        let parents: Vec<String> = s.as_ref().parents().iter().map(|p| if p.is_none() { "root".to_string() } else { "substore".to_string() }).collect();
+        o.push(format!("substore {} file={} parents=[{}]", subname(&s), file, parents.join(",")));
+        o.push(format!("  {} annotations=[{}]", subname(&s), s.annotations().map(|a| aname(&a)).collect::<Vec<_>>().join(",")));
+        o.push(format!("  {} resources=[{}]", subname(&s), sorted(s.resources().map(|r| r.id().unwrap_or("<no id>").to_string()).collect())));
+        o.push(format!("  {} datasets=[{}]", subname(&s), sorted(s.datasets().map(|r| r.id().unwrap_or("<no id>").to_string()).collect())));
+    }
+    o.push(format!("root annotations=[{}]", store.annotations_no_substores().map(|a| aname(&a)).collect::<Vec<_>>().join(",")));
+    o.push(format!("root resources=[{}]", sorted(store.resources_no_substores().map(|r| r.id().unwrap_or("<no id>").to_string()).collect())));
+    o.push(format!("root datasets=[{}]", sorted(store.datasets_no_substores().map(|r| r.id().unwrap_or("<no id>").to_string()).collect())));
+    // the reverse direction: what each item says about itself
+    for a in store.annotations() {
+        o.push(format!("annotation {} in {}", aname(&a), a.substore().map(|s| subname(&s)).unwrap_or_else(|| "root".into())));
+    }
+    for r in store.resources() {
+        o.push(format!("resource {} in [{}]", r.id().unwrap_or("<no id>"), sorted(r.substores().map(|s| subname(&s)).collect())));
+    }
+    for d in store.datasets() {
+        o.push(format!("dataset {} in [{}]", d.id().unwrap_or("<no id>"), sorted(d.substores().map(|s| subname(&s)).collect())));
+    }
+    // the last two groups follow the handle order of resources / datasets, which is not part of the statement
+    let n = o.len();
+    let k = store.resources().count() + store.datasets().count();
+    o[n - k..].sort();
+    o
+}
+
+/// membership a layout must have after loading / building (and after its removal): S* rs ss in "sub", the rest in none
+fn sub_expected_membership(l: &SubLayout, anns: &[SubAnn]) -> Vec<String> {
+    let removed = sub_removal_index(l);
+    let live: Vec<&SubAnn> = anns.iter().enumerate().filter(|(i, _)| Some(*i) != removed).map(|(_, a)| a).collect();
+    let name = |i: usize, a: &SubAnn| a.id.map(|s| s.to_string()).unwrap_or_else(|| format!("~A{}", i));
+    let list = |sub: bool| live.iter().enumerate().filter(|(_, a)| a.sub == sub).map(|(i, a)| name(i, a)).collect::<Vec<_>>().join(",");
+    let mut o = vec![
+        "substores total=1 top-level=1".to_string(),
+        format!("substore sub file={} parents=[root]", SUB_FILE),
+        format!("  sub annotations=[{}]", list(true)),
+        "  sub resources=[rs]".to_string(),
+        "  sub datasets=[ss]".to_string(),
+        format!("root annotations=[{}]", list(false)),
+        "root resources=[rr]".to_string(),
+        "root datasets=[sr]".to_string(),
+    ];
+    for (i, a) in live.iter().enumerate() {
+        o.push(format!("annotation {} in {}", name(i, a), if a.sub { "sub" } else { "root" }));
+    }
+    let mut tail = vec!["resource rr in []".to_string(), "resource rs in [sub]".to_string(), "dataset sr in []".to_string(), "dataset ss in [sub]".to_string()];
+    tail.sort();
+    o.extend(tail);
+    o
+}
+
+fn sub_first_diff(a: &[String], b: &[String]) -> Option<String> {
+    let n = a.len().max(b.len());
+    (0..n).find(|i| a.get(*i) != b.get(*i)).map(|i| format!("first {:?} second {:?}", a.get(i), b.get(i)))
+}
+
+/// class of a difference between two abstract renderings; a pure reordering of the annotations gets its own class
+fn sub_diff(a: &[(String, String)], b: &[(String, String)]) -> Option<(String, String)> {
+    let (section, detail) = diff_ser(a, b)?;
+    if section == "annotation" {
+        let lines = |x: &[(String, String)]| {
+            let mut v: Vec<String> = x.iter().filter(|p| p.0 == "annotation").map(|p| p.1.clone()).collect();
+            v.sort();
+            v
+        };
+        if lines(a) == lines(b) {
+            return Some(("differs@annotation:order".into(), detail));
+        }
+    }
+    if section == "resource" || section == "dataset" {
+        // compared as sets: say whether an item went missing, came in addition, or changed
+        let names = |x: &[(String, String)]| -> Vec<String> { x.iter().filter(|p| p.0 == section).map(|p| p.1.split(' ').next().unwrap_or("").to_string()).collect() };
+        let (na, nb) = (names(a), names(b));
+        let aspect = if na.iter().any(|n| !nb.contains(n)) {
+            "missing-item"
+        } else if nb.iter().any(|n| !na.contains(n)) || nb.len() > na.len() {
+            "extra-item"
+        } else {
+            "content"
+        };
+        let lines = |x: &[(String, String)]| -> Vec<String> { x.iter().filter(|p| p.0 == section).map(|p| p.1.clone()).collect() };
+        return Some((format!("differs@{}:{}", section, aspect), format!("original {:?} reloaded {:?}", lines(a), lines(b))));
+    }
+    let aspect = diff_aspect(&detail);
+    Some((format!("differs@{}:{}", section, aspect), detail))
+}
+
+/// all files below `dir` with their content
+fn sub_snapshot(dir: &str) -> Vec<(String, Vec<u8>)> {
+    let mut v: Vec<(String, Vec<u8>)> = Vec::new();
+    if let Ok(rd) = std::fs::read_dir(dir) {
+        for e in rd.flatten() {
+            let name = e.file_name().to_string_lossy().to_string();
+            if e.path().is_dir() {
+                v.push((format!("{}/", name), Vec::new()));
+            } else {
+                v.push((name, std::fs::read(e.path()).unwrap_or_default()));
+            }
+        }
+    }
+    v.sort();
+    v
+}
+
+fn sub_file_class(name: &str) -> &'static str {
+    match name {
+        ROOT_FILE => "root-store-file",
+        SUB_FILE => "substore-file",
+        RS_FILE => "resource-file",
+        SS_FILE => "dataset-file",
+        _ => "other-file",
+    }
+}
+
+/// One layout: make the store, remove, observe, save, check the files, reload, compare, save again, compare the files.
+/// Returns whether a save + reload was completed. `verbose` prints the steps (replay).
+fn sub_run_layout(rep: &Reporter, l: &SubLayout, index: usize, dir: &str, verbose: bool) -> bool {
+    let ord = (1u64 << 61) + l.weight() * 100_000 + index as u64;
+    let case = || json!({"substore": l.to_json()});
+    let prefix = l.sig_prefix();
+    let fail = |symptom: String, detail: String| {
+        if verbose {
+            println!("  FAIL {} :: {}", symptom, detail);
+        }
+        rep.fail(&format!("{}|{}", prefix, symptom), ord, || detail.chars().take(900).collect(), case);
+    };
+    let class = |r: Result<Result<(), StamError>, String>, what: &str| -> Option<(String, String)> {
+        match r {
+            Err(p) => Some((format!("{}-panic:{}", what, msg_class(&p)), p)),
+            Ok(Err(e)) => Some((format!("{}-err:{}", what, sub_err_class(&e, dir)), format!("{}", e))),
+            Ok(Ok(())) => None,
+        }
+    };
+    let anns = sub_annotations(l);
+    let _ = std::fs::remove_dir_all(dir);
+    std::fs::create_dir_all(dir).expect("layout dir");
+
+    // 1. the store of the layout
+    let mut store = match catch(|| sub_make_store(l, dir, &anns)) {
+        Err(p) => {
+            fail(format!("initial-panic:{}", msg_class(&p)), p);
+            return false;
+        }
+        Ok(Err(e)) => {
+            // Include: the hand-written documents do not load; Add / New: an API call (or add_substore of the hand-written sub-store) fails
+            fail(format!("{}:{}", if l.attach == Attach::Include { "handwritten-load-err" } else { "build-err" }, sub_err_class(&e, dir)), format!("{}", e));
+            return false;
+        }
+        Ok(Ok(s)) => s,
+    };
+    let removed = sub_removal_index(l);
+    if let Some(i) = removed {
+        if let Some((s, d)) = class(catch(|| store.remove_annotation(AnnotationHandle::new(i))), "remove") {
+            fail(s, d);
+            return false;
+        }
+    }
+    let observe = |s: &AnnotationStore| catch(|| (sub_norm(ser_abstract(s, true, true)), sub_membership(s)));
+    let (abs1, mem1) = match observe(&store) {
+        Ok(x) => x,
+        Err(p) => {
+            fail(format!("observation-panic:{}", msg_class(&p)), p);
+            return false;
+        }
+    };
+    if verbose {
+        println!("  store of the layout:");
+        for (s, line) in &abs1 {
+            println!("    {:<10} {}", s, line);
+        }
+        for line in &mem1 {
+            println!("    {}", line);
+        }
+    }
+    // the layout's store against the same items in a plain store, and against the membership the layout defines
+    match catch(|| -> Result<Vec<(String, String)>, StamError> {
+        let mut flat = sub_flat_store(l, &anns)?;
+        if let Some(i) = removed {
+            flat.remove_annotation(AnnotationHandle::new(i))?;
+        }
+        Ok(sub_norm(ser_abstract(&flat, true, true)))
+    }) {
+        Ok(Ok(expected)) => {
+            if let Some((symptom, detail)) = sub_diff(&expected, &abs1) {
+                fail(format!("initial-{}", symptom), format!("plain store vs layout store: {}", detail));
+            }
+        }
+        Ok(Err(e)) => fail(format!("harness-reference-err:{}", err_class(&e)), format!("{}", e)),
+        Err(p) => fail(format!("harness-reference-panic:{}", msg_class(&p)), p),
+    }
+    if let Some(d) = sub_first_diff(&sub_expected_membership(l, &anns), &mem1) {
+        fail("initial-substore-membership-differs".into(), format!("expected vs layout store: {}", d));
+    }
+
+    // 2. save (the store files of the layout are taken away first: the save has to produce them), check the files, reload
+    let rootpath = format!("{}/{}", dir, ROOT_FILE);
+    let subpath = format!("{}/{}", dir, SUB_FILE);
+    let _ = std::fs::remove_file(&rootpath);
+    let _ = std::fs::remove_file(&subpath);
+    if let Some((s, d)) = class(catch(|| store.save()), "save") {
+        fail(s, d);
+        return false;
+    }
+    let files1 = sub_snapshot(dir);
+    if verbose {
+        for (name, content) in &files1 {
+            println!("  --- written: {} ---\n{}", name, String::from_utf8_lossy(content));
+        }
+    }
+    let doc = |path: &str| std::fs::read_to_string(path).ok().and_then(|t| serde_json::from_str::<Value>(&t).ok());
+    let rootdoc = match doc(&rootpath) {
+        Some(d) => d,
+        None => {
+            fail("root-file-not-written".into(), format!("files in the directory: {:?}", files1.iter().map(|f| &f.0).collect::<Vec<_>>()));
+            return false;
+        }
+    };
+    let includes: Vec<String> = match rootdoc.get("@include") {
+        Some(Value::String(s)) => vec![s.clone()],
+        Some(Value::Array(v)) => v.iter().filter_map(|x| x.as_str().map(|s| s.to_string())).collect(),
+        _ => vec![],
+    };
+    let included = includes.iter().any(|f| f.rsplit('/').next() == Some(SUB_FILE));
+    if !included {
+        fail("substore-inlined".into(), format!("the root file has \"@include\": {:?}", rootdoc.get("@include")));
+    } else if doc(&subpath).is_none() {
+        fail("substore-file-not-written".into(), format!("files in the directory: {:?}", files1.iter().map(|f| &f.0).collect::<Vec<_>>()));
+    }
+    // items of the sub-store must not also be written inline in the root file
+    if included {
+        let ids = |d: &Value, member: &str| -> Vec<String> {
+            d.get(member).and_then(|x| x.as_array()).map(|v| v.iter().map(|x| x.get("@id").and_then(|i| i.as_str()).unwrap_or("").to_string()).collect()).unwrap_or_default()
+        };
+        let nroot = mem1.iter().find_map(|m| m.strip_prefix("root annotations=[")).map(|m| if m == "]" { 0 } else { m.split(',').count() }).unwrap_or(0);
+        let rootann = ids(&rootdoc, "annotations");
+        if rootann.iter().any(|i| i == "S1" || i == "S2") || rootann.len() > nroot {
+            fail("item-duplicated:annotation".into(), format!("annotations in the root file: {:?}; the root store has {}", rootann, nroot));
+        }
+        if l.res != Place::Shared && ids(&rootdoc, "resources").iter().any(|i| i == "rs") {
+            fail("item-duplicated:resource".into(), format!("resources in the root file: {:?}", ids(&rootdoc, "resources")));
+        }
+        if l.set != Place::Shared && ids(&rootdoc, "annotationsets").iter().any(|i| i == "ss") {
+            fail("item-duplicated:dataset".into(), format!("datasets in the root file: {:?}", ids(&rootdoc, "annotationsets")));
+        }
+    }
+    let reloaded = match catch(|| AnnotationStore::from_file(&rootpath, Config::default().with_use_include(true))) {
+        Err(p) => {
+            fail(format!("load-panic:{}", msg_class(&p)), p);
+            return true;
+        }
+        Ok(Err(e)) => {
+            fail(format!("load-err:{}", sub_err_class(&e, dir)), format!("{}", e));
+            return true;
+        }
+        Ok(Ok(s)) => s,
+    };
+    match observe(&reloaded) {
+        Ok((abs2, mem2)) => {
+            if let Some((symptom, detail)) = sub_diff(&abs1, &abs2) {
+                fail(symptom, detail.replace("original", "saved").to_string());
+            }
+            if let Some(d) = sub_first_diff(&mem1, &mem2) {
+                fail("substore-membership-differs".into(), format!("saved vs reloaded: {}", d));
+            }
+        }
+        Err(p) => fail(format!("observation-panic-after-reload:{}", msg_class(&p)), p),
+    }
+
+    // 3. the reloaded store written again: every file as before
+    if let Some((s, d)) = class(catch(|| reloaded.save()), "second-save") {
+        fail(s, d);
+        return true;
+    }
+    let files2 = sub_snapshot(dir);
+    let mut names: Vec<&String> = files1.iter().chain(files2.iter()).map(|f| &f.0).collect();
+    names.sort();
+    names.dedup();
+    for name in names {
+        let a = files1.iter().find(|f| &f.0 == name).map(|f| &f.1);
+        let b = files2.iter().find(|f| &f.0 == name).map(|f| &f.1);
+        if a != b {
+            let what = match (a, b) {
+                (None, _) => "appears",
+                (_, None) => "disappears",
+                _ => "content",
+            };
+            let show = |x: Option<&Vec<u8>>| x.map(|c| String::from_utf8_lossy(c).chars().take(400).collect::<String>()).unwrap_or_else(|| "<absent>".into());
+            fail(format!("second-save-differs:{}:{}", sub_file_class(name), what), format!("{}: first save: {} -- second save: {}", name, show(a), show(b)));
+        }
+    }
+    true
+}
+
+/// error class without the layout directory (it is part of file names in I/O messages)
+fn sub_err_class(e: &StamError, dir: &str) -> String {
+    // the nested "[StamError] " wrappers carry nothing; the innermost error kind has to fit into the class
+    // and quoted ids / values are data, not class
+    let msg = format!("{}", e).replace(dir, "<dir>").replace("[StamError] ", "").replace("Deserialization failed: ", "").replace("Error during build: ", "");
+    let mut out = String::new();
+    for (i, part) in msg.split('"').enumerate() {
+        out.push_str(if i % 2 == 0 { part } else { "\"_\"" });
+    }
+    msg_class(&out).chars().take(140).collect()
+}
+
+/// Bounded-exhaustive family over the sub-store layouts. Returns (layouts, completed save + reload round trips).
+pub fn substore_family(rep: &Reporter, workdir: &str) -> (u64, u64) {
+    let layouts = substore_layouts();
+    let done = AtomicU64::new(0);
+    layouts.par_iter().enumerate().for_each(|(i, l)| {
+        let dir = format!("{}/s{:05}", workdir, i);
+        match catch(|| sub_run_layout(rep, l, i, &dir, false)) {
+            Ok(true) => {
+                done.fetch_add(1, Ordering::Relaxed);
+            }
+            Ok(false) => {}
+            Err(p) => rep.fail(&format!("{}|panic:{}", l.sig_prefix(), msg_class(&p)), (1u64 << 61) + l.weight() * 100_000 + i as u64, || p.clone(), || json!({"substore": l.to_json()})),
+        }
+        if std::env::var("VERIF_KEEP_WORK").is_err() {
+            let _ = std::fs::remove_dir_all(&dir);
+        }
+    });
+    (layouts.len() as u64, done.load(Ordering::Relaxed))
+}
+
 pub fn run(rep: &Reporter) -> Coverage {
     let workdir = crate::util::work_dir("w");
     std::fs::create_dir_all(&workdir).expect("workdir");
@@ -340,15 +1201,40 @@ pub fn run(rep: &Reporter) -> Coverage {
             "new_states_per_depth": stats.depth_hist, "transitions": stats.transitions}));
     }
     let nsweep = run_value_sweep(rep, &oracle.roundtrips);
+    let t0 = std::time::Instant::now();
+    let (nlayouts, nsubtrips) = substore_family(rep, &workdir);
+    if std::env::var("VERIF_TIMING").is_ok() {
+        eprintln!("substore family: {} layouts, {} round trips, {:.2}s", nlayouts, nsubtrips, t0.elapsed().as_secs_f64());
+    }
     let _ = std::fs::remove_dir_all(&workdir);
     cov.samples.push(json!({"sweep": "value Datetime(2024-03-01T12:30:45.250+01:00) as data value; string \"\\\"\\\\\" as key id / data id / annotation id"}));
     cov.exhaustive = exhaustive;
-    cov.evaluations = oracle.roundtrips.load(Ordering::Relaxed);
+    cov.states += nlayouts;
+    cov.evaluations = oracle.roundtrips.load(Ordering::Relaxed) + nsubtrips;
     cov.traces_validated = cov.transitions;
     cov.extra.insert("explorations".into(), json!(runs));
     cov.extra.insert("value_sweep_stores".into(), json!(nsweep));
     cov.extra.insert("standoff_file_roundtrips_up_to_depth".into(), json!(oracle.file_depth));
-    cov.rule = "every distinct state of the history exploration (as C01) is written with to_json_string (pretty and compact), read back with from_str and compared: resources+texts, datasets/keys/data with typed values, annotations in order with ids, target kind, referenced items (by id, id-less items by rank), offsets and alignment mode, data references; the reloaded store must serialise to the identical string; states up to the file depth are additionally laid out with @include stand-off files, loaded, saved again (members must stay stand-off) and reloaded; value sweep: one store per value of a menu (all DataValue types, nested lists, datetimes with offsets and sub-seconds, integer range ends, awkward strings of length <= 2 over 12 symbols) and per awkward string used as key id / data id / annotation id; non-trivial = states with a removed and a live annotation".into();
+    cov.extra.insert(
+        "substore_family".into(),
+        json!({
+            "layouts": nlayouts,
+            "save_reload_round_trips_completed": nsubtrips,
+            "dimensions": {
+                "attach": ["include (hand-written root document with @include of the sub-store, from_file)", "include-rootfirst (the root's resources and datasets stand before @include)", "add (root made through the API, add_substore(file))", "add-rootfirst (root resource, dataset and first annotation made before add_substore)", "new (add_new_substore + associate_substore per item)", "new-rootfirst"],
+                "substore_resource": ["inline", "standoff (@include text file)", "shared (the root includes the same file; not for new)"],
+                "substore_dataset": ["inline", "standoff", "shared (not for new)"],
+                "root_annotation_on_substore_resource_with_substore_data": [false, true],
+                "root_annotation_on_substore_annotation": ["none", "AnnotationSelector", "AnnotationSelector with offset"],
+                "texts_and_offsets": ["plain, begin-aligned", "multi-byte, begin-aligned", "multi-byte, end-aligned"],
+                "idless_annotations_and_data": [false, true],
+                "removal_before_save": ["none", "root annotation", "sub-store annotation"],
+            },
+            "always_present": "sub-store annotations S1 S2 on the sub-store's resource with data of its dataset, root annotation R1 on the root's resource with data of the root's dataset",
+        }),
+    );
+    cov.samples.push(json!({"substore": substore_layouts().last().map(|l| l.to_json()), "then": "make store -> remove -> observe -> save -> check files -> from_file -> compare -> save -> compare files"}));
+    cov.rule = "every distinct state of the history exploration (as C01) is written with to_json_string (pretty and compact), read back with from_str and compared: resources+texts, datasets/keys/data with typed values, annotations in order with ids, target kind, referenced items (by id, id-less items by rank), offsets and alignment mode, data references; the reloaded store must serialise to the identical string; states up to the file depth are additionally laid out with @include stand-off files, loaded, saved again (members must stay stand-off) and reloaded; value sweep: one store per value of a menu (all DataValue types, nested lists, datetimes with offsets and sub-seconds, integer range ends, awkward strings of length <= 2 over 12 symbols) and per awkward string used as key id / data id / annotation id; sub-store family: the product of {how the sub-store is attached: hand-written @include / add_substore / add_new_substore+associate_substore, the latter two each also with the root's resource and dataset first} x {sub-store resource inline / stand-off / stand-off file shared with the root} x {same for its dataset} x {root annotation on the sub-store's resource} x {root annotation on a sub-store annotation: none / without / with offset} x {plain texts / multi-byte texts / multi-byte texts with end-aligned offsets} x {id-less annotations and data} x {no removal / root annotation removed / sub-store annotation removed}; per layout the store must equal the same items made in a plain store and have the membership the layout defines, then save -> the root file still @includes the sub-store and repeats none of its items -> from_file -> same abstract content (annotations in order) and same sub-store membership (per sub-store: id, file, annotations, resources, datasets; items of no sub-store; each item's own answer) -> save again -> every file byte-identical; non-trivial = states with a removed and a live annotation".into();
     cov.assumptions = vec![
         "items without public id are compared by rank, so a renumbering of handles on reload is not a difference".into(),
         "NaN / infinite floats are left out of the JSON sweep (no JSON form); they are in the CBOR sweep".into(),
@@ -362,6 +1248,32 @@ pub fn replay(rep: &Reporter, case: &Value) {
         println!("replay C05 value sweep case #{}: {}", idx, case["sweep"]);
         let c = AtomicU64::new(0);
         run_value_sweep(rep, &c);
+        return;
+    }
+    if let Some(sub) = case.get("substore") {
+        let l = match SubLayout::from_json(sub) {
+            Some(l) => l,
+            None => {
+                println!("replay C05: cannot read the sub-store layout {}", sub);
+                return;
+            }
+        };
+        println!("replay C05 sub-store layout: {}", l.to_json());
+        let workdir = crate::util::work_dir("replay");
+        let dir = format!("{}/s00000", workdir);
+        let index = substore_layouts().iter().position(|x| *x == l).unwrap_or(0);
+        match catch(|| sub_run_layout(rep, &l, index, &dir, true)) {
+            Ok(done) => println!("  save + reload {}", if done { "completed" } else { "not reached" }),
+            Err(p) => {
+                println!("  panic: {}", p);
+                rep.fail(&format!("{}|panic:{}", l.sig_prefix(), msg_class(&p)), 0, || p.clone(), || case.clone());
+            }
+        }
+        if std::env::var("VERIF_KEEP_WORK").is_err() {
+            let _ = std::fs::remove_dir_all(&workdir);
+        } else {
+            println!("  work files kept in {}", dir);
+        }
         return;
     }
     let hist = history_from_json(&case["history"]);
